@@ -309,3 +309,18 @@ Proof. vm_compute. repeat split; discriminate. Qed.
 
 Example no_overflow_guard_satisfiable : 4 <= 7 /\ 2 ^ 64 + 1 < day_v * 10 ^ 4.
 Proof. vm_compute. split; [discriminate|reflexivity]. Qed.
+
+(** Outside the theorems' guard (recorded, not part of C18's quantifier: the
+    table printer never asks for a precision): from 11 significant figures on
+    the code's [picos * multiple] overflows u128 for values still on the float
+    path (debug build: panic; release build: wraps and prints garbage), and
+    from 8 on the pre-scaled integer can exceed 2^53, where the model's float
+    assumption no longer applies (the implementation then rounds up:
+    [{:.8}] of 8639999999999999999999999 ps prints "100000000 d"). *)
+Example large_precision_overflows :
+  fmt_duration_with (Some 20) None (10 ^ 19) = FPanic Overflow.
+Proof. reflexivity. Qed.
+
+Example precision_8_outside_float_assumption :
+  fmt_duration_with (Some 8) None 8639999999999999999999999 = FInexact.
+Proof. reflexivity. Qed.
